@@ -49,41 +49,45 @@ theorem finishedRows_rel (L0 N x : Nat) : finishedRows (L0 + 1) N (L0 + x) = dec
 
 /-! ### one boundary / one iteration in rows mode -/
 
+@[simp] theorem sidOf_some (start x rc : Nat) : sidOf start ⟨some x, rc⟩ = x := rfl
+@[simp] theorem sidOf_init (start : Nat) : sidOf start App.init = start - 1 := rfl
+
+
 theorem truthy_rows (c : Crit) (h : RowsMode c) : truthy (stoppingTablename c) = true := by
   simp [stoppingTablename, h.1, truthy, h.2]
 
 theorem boundary_rows (c : Crit) (start : Nat) (app : App) (last : Nat) (h : RowsMode c) :
     boundary c start app last =
-      if last = app.startingId then none
-      else some (⟨last, app.repCount + 1⟩, finishedRows start c.count last) := by
+      if last = sidOf start app then none
+      else some (⟨some last, app.repCount + 1⟩, finishedRows start c.count last) := by
   simp only [boundary, ensureProgress, checkIfFinished, truthy_rows c h, h.1]
-  by_cases hl : last = app.startingId <;> simp [hl]
+  by_cases hl : last = sidOf start app <;> simp [hl]
 
 theorem loop_step_stall (c : Crit) (start : Nat) (r : Nat → Nat) (h : RowsMode c) (f i last : Nat)
-    (app : App) (hs : last + r i = app.startingId) :
+    (app : App) (hs : last + r i = sidOf start app) :
     loop c start r (f + 1) i last app = .noProgress (i + 1) (last + r i) := by
   simp [loop, boundary_rows c start app _ h, hs]
 
 theorem loop_step_finish (c : Crit) (start : Nat) (r : Nat → Nat) (h : RowsMode c) (f i last : Nat)
-    (app : App) (hs : last + r i ≠ app.startingId)
+    (app : App) (hs : last + r i ≠ sidOf start app)
     (hf : finishedRows start c.count (last + r i) = true) :
-    loop c start r (f + 1) i last app = .finished (i + 1) (last + r i) ⟨last + r i, app.repCount + 1⟩ := by
+    loop c start r (f + 1) i last app = .finished (i + 1) (last + r i) ⟨some (last + r i), app.repCount + 1⟩ := by
   simp [loop, boundary_rows c start app _ h, hs, hf]
 
 theorem loop_step_continue (c : Crit) (start : Nat) (r : Nat → Nat) (h : RowsMode c) (f i last : Nat)
-    (app : App) (hs : last + r i ≠ app.startingId)
+    (app : App) (hs : last + r i ≠ sidOf start app)
     (hf : finishedRows start c.count (last + r i) = false) :
     loop c start r (f + 1) i last app =
-      loop c start r f (i + 1) (last + r i) ⟨last + r i, app.repCount + 1⟩ := by
+      loop c start r f (i + 1) (last + r i) ⟨some (last + r i), app.repCount + 1⟩ := by
   simp [loop, boundary_rows c start app _ h, hs, hf]
 
 /-- `k` iterations that each make progress and do not reach the target are simply executed. -/
 theorem loop_skip (c : Crit) (start : Nat) (r : Nat → Nat) (h : RowsMode c) (L0 i : Nat) (app : App)
-    (hsid : app.startingId ≤ L0 + cum r i) :
+    (hsid : sidOf start app ≤ L0 + cum r i) :
     ∀ k f,
       (∀ j, i ≤ j → j < i + k → 1 ≤ r j ∧ finishedRows start c.count (L0 + cum r (j + 1)) = false) →
-      ∃ app' : App, app'.startingId ≤ L0 + cum r (i + k) ∧ app'.repCount = app.repCount + k ∧
-        (0 < k → app'.startingId = L0 + cum r (i + k)) ∧ (k = 0 → app' = app) ∧
+      ∃ app' : App, sidOf start app' ≤ L0 + cum r (i + k) ∧ app'.repCount = app.repCount + k ∧
+        (0 < k → app'.startingId = some (L0 + cum r (i + k))) ∧ (k = 0 → app' = app) ∧
         loop c start r (k + f) i (L0 + cum r i) app = loop c start r f (i + k) (L0 + cum r (i + k)) app' := by
   intro k
   induction k with
@@ -94,7 +98,7 @@ theorem loop_skip (c : Crit) (start : Nat) (r : Nat → Nat) (h : RowsMode c) (L
     obtain ⟨hr, hnf⟩ := hk (i + k) (by omega) (by omega)
     have e : L0 + cum r (i + k) + r (i + k) = L0 + cum r (i + (k + 1)) := by
       rw [← Nat.add_assoc i k 1, cum_succ]; omega
-    refine ⟨⟨L0 + cum r (i + (k + 1)), app1.repCount + 1⟩, Nat.le_refl _, by simp [h2]; omega,
+    refine ⟨⟨some (L0 + cum r (i + (k + 1))), app1.repCount + 1⟩, Nat.le_refl _, by simp [h2]; omega,
       fun _ => rfl, by omega, ?_⟩
     have e2 : k + 1 + f = k + (f + 1) := by omega
     rw [e2, h5, loop_step_continue c start r h f (i + k) _ app1 (by omega) (by rw [e]; exact hnf), e]
@@ -109,14 +113,14 @@ theorem loop_finished_sound (c : Crit) (start : Nat) (r : Nat → Nat) (h : Rows
       loop c start r fuel i last app = .finished n last' app' →
       i < n ∧ last' = L0 + cum r n ∧ finishedRows start c.count (L0 + cum r n) = true ∧
       (∀ j, i < j → j < n → finishedRows start c.count (L0 + cum r j) = false) ∧
-      app'.repCount = app.repCount + (n - i) ∧ app'.startingId = last' := by
+      app'.repCount = app.repCount + (n - i) ∧ app'.startingId = some last' := by
   intro fuel
   induction fuel with
   | zero => intro i last app n last' app' _ hl; simp [loop] at hl
   | succ fuel ih =>
     intro i last app n last' app' hlast hl
     have e : last + r i = L0 + cum r (i + 1) := by rw [cum_succ]; omega
-    by_cases hs : last + r i = app.startingId
+    by_cases hs : last + r i = sidOf start app
     · rw [loop_step_stall c start r h fuel i last app hs] at hl; simp at hl
     · cases hf : finishedRows start c.count (last + r i) with
       | true =>
@@ -135,7 +139,7 @@ theorem loop_finished_sound (c : Crit) (start : Nat) (r : Nat → Nat) (h : Rows
 
 /-- The progress error is raised only at the end of an iteration that created no row. -/
 theorem loop_noProgress_sound (c : Crit) (start : Nat) (r : Nat → Nat) (h : RowsMode c) :
-    ∀ fuel i last app n last', app.startingId ≤ last →
+    ∀ fuel i last app n last', sidOf start app ≤ last →
       loop c start r fuel i last app = .noProgress n last' →
       i < n ∧ r (n - 1) = 0 := by
   intro fuel
@@ -143,7 +147,7 @@ theorem loop_noProgress_sound (c : Crit) (start : Nat) (r : Nat → Nat) (h : Ro
   | zero => intro i last app n last' _ hl; simp [loop] at hl
   | succ fuel ih =>
     intro i last app n last' hsid hl
-    by_cases hs : last + r i = app.startingId
+    by_cases hs : last + r i = sidOf start app
     · rw [loop_step_stall c start r h fuel i last app hs] at hl
       injection hl with h1 h2
       subst h1
@@ -153,7 +157,7 @@ theorem loop_noProgress_sound (c : Crit) (start : Nat) (r : Nat → Nat) (h : Ro
         rw [loop_step_finish c start r h fuel i last app hs hf] at hl; simp at hl
       | false =>
         rw [loop_step_continue c start r h fuel i last app hs hf] at hl
-        obtain ⟨g1, g2⟩ := ih (i + 1) (last + r i) ⟨last + r i, app.repCount + 1⟩ n last'
+        obtain ⟨g1, g2⟩ := ih (i + 1) (last + r i) ⟨some (last + r i), app.repCount + 1⟩ n last'
           (Nat.le_refl _) hl
         exact ⟨by omega, g2⟩
 
@@ -162,14 +166,14 @@ theorem loop_noProgress_sound (c : Crit) (start : Nat) (r : Nat → Nat) (h : Ro
 /-- Once `starting_id` is in step with the id counter, every iteration either ends the run or brings
     the counter strictly closer to the target id. -/
 theorem loop_terminates_synced (c : Crit) (start : Nat) (r : Nat → Nat) (h : RowsMode c) :
-    ∀ fuel i last app, app.startingId = last → 1 ≤ fuel → targetId start c.count - last ≤ fuel →
+    ∀ fuel i last app, sidOf start app = last → 1 ≤ fuel → targetId start c.count - last ≤ fuel →
       ∀ n, loop c start r fuel i last app ≠ .outOfFuel n := by
   intro fuel
   induction fuel with
   | zero => intro i last app _ h1; omega
   | succ fuel ih =>
     intro i last app hsid _ hd n
-    by_cases hs : last + r i = app.startingId
+    by_cases hs : last + r i = sidOf start app
     · rw [loop_step_stall c start r h fuel i last app hs]; simp
     · cases hf : finishedRows start c.count (last + r i) with
       | true => rw [loop_step_finish c start r h fuel i last app hs hf]; simp
@@ -177,14 +181,14 @@ theorem loop_terminates_synced (c : Crit) (start : Nat) (r : Nat → Nat) (h : R
         rw [loop_step_continue c start r h fuel i last app hs hf]
         have hlt : last + r i < targetId start c.count := by
           simp [finishedRows] at hf; exact hf
-        exact ih (i + 1) (last + r i) ⟨last + r i, app.repCount + 1⟩ rfl (by omega) (by omega) n
+        exact ih (i + 1) (last + r i) ⟨some (last + r i), app.repCount + 1⟩ rfl (by omega) (by omega) n
 
 theorem loop_terminates (c : Crit) (start : Nat) (r : Nat → Nat) (h : RowsMode c)
     (fuel last : Nat) (app : App) (hf : targetId start c.count - last + 2 ≤ fuel) :
     ∀ n, loop c start r fuel 0 last app ≠ .outOfFuel n := by
   intro n
   obtain ⟨f, rfl⟩ : ∃ f, fuel = f + 1 := ⟨fuel - 1, by omega⟩
-  by_cases hs : last + r 0 = app.startingId
+  by_cases hs : last + r 0 = sidOf start app
   · rw [loop_step_stall c start r h f 0 last app hs]; simp
   · cases hfin : finishedRows start c.count (last + r 0) with
     | true => rw [loop_step_finish c start r h f 0 last app hs hfin]; simp
@@ -192,7 +196,7 @@ theorem loop_terminates (c : Crit) (start : Nat) (r : Nat → Nat) (h : RowsMode
       rw [loop_step_continue c start r h f 0 last app hs hfin]
       have hlt : last + r 0 < targetId start c.count := by
         simp [finishedRows] at hfin; exact hfin
-      exact loop_terminates_synced c start r h f 1 (last + r 0) ⟨last + r 0, app.repCount + 1⟩ rfl
+      exact loop_terminates_synced c start r h f 1 (last + r 0) ⟨some (last + r 0), app.repCount + 1⟩ rfl
         (by omega) (by omega) n
 
 /-- more fuel never changes a result that was reached -/
@@ -219,11 +223,11 @@ theorem loop_fuel_mono (c : Crit) (start : Nat) (r : Nat → Nat) :
 
 /-- `k` progressing, non-finishing iterations followed by one that reaches the target -/
 theorem loop_complete (c : Crit) (start : Nat) (r : Nat → Nat) (h : RowsMode c) (L0 i : Nat) (app : App)
-    (hsid : app.startingId ≤ L0 + cum r i) (k f : Nat)
+    (hsid : sidOf start app ≤ L0 + cum r i) (k f : Nat)
     (hk : ∀ j, i ≤ j → j < i + k → 1 ≤ r j ∧ finishedRows start c.count (L0 + cum r (j + 1)) = false)
     (hr : 1 ≤ r (i + k)) (hfin : finishedRows start c.count (L0 + cum r (i + k + 1)) = true) :
     loop c start r (k + (f + 1)) i (L0 + cum r i) app =
-      .finished (i + k + 1) (L0 + cum r (i + k + 1)) ⟨L0 + cum r (i + k + 1), app.repCount + k + 1⟩ := by
+      .finished (i + k + 1) (L0 + cum r (i + k + 1)) ⟨some (L0 + cum r (i + k + 1)), app.repCount + k + 1⟩ := by
   obtain ⟨app1, h1, h2, _, _, h5⟩ := loop_skip c start r h L0 i app hsid k (f + 1) hk
   have e : L0 + cum r (i + k) + r (i + k) = L0 + cum r (i + k + 1) := by rw [cum_succ]; omega
   rw [h5, loop_step_finish c start r h f (i + k) _ app1 (by omega) (by rw [e]; exact hfin), e, h2]
@@ -231,17 +235,19 @@ theorem loop_complete (c : Crit) (start : Nat) (r : Nat → Nat) (h : RowsMode c
 /-- `k` progressing, non-finishing iterations followed by one that creates no row: the error is
     raised there, provided `starting_id` is in step with the counter (always, after one iteration). -/
 theorem loop_stalls (c : Crit) (start : Nat) (r : Nat → Nat) (h : RowsMode c) (L0 i : Nat) (app : App)
-    (hsid : app.startingId ≤ L0 + cum r i) (k f : Nat)
+    (hsid : sidOf start app ≤ L0 + cum r i) (k f : Nat)
     (hk : ∀ j, i ≤ j → j < i + k → 1 ≤ r j ∧ finishedRows start c.count (L0 + cum r (j + 1)) = false)
-    (hr : r (i + k) = 0) (hsync : 0 < k ∨ app.startingId = L0 + cum r i) :
+    (hr : r (i + k) = 0) (hsync : 0 < k ∨ sidOf start app = L0 + cum r i) :
     loop c start r (k + (f + 1)) i (L0 + cum r i) app = .noProgress (i + k + 1) (L0 + cum r (i + k)) := by
   obtain ⟨app1, h1, h2, h3, h4, h5⟩ := loop_skip c start r h L0 i app hsid k (f + 1) hk
-  have hs : L0 + cum r (i + k) + r (i + k) = app1.startingId := by
+  have hs3 : 0 < k → sidOf start app1 = L0 + cum r (i + k) := by
+    intro hk0; simp [sidOf, h3 hk0]
+  have hs : L0 + cum r (i + k) + r (i + k) = sidOf start app1 := by
     rw [hr]
     rcases hsync with hk0 | hk0
-    · rw [h3 hk0]; rfl
+    · rw [hs3 hk0]; rfl
     · by_cases hk1 : 0 < k
-      · rw [h3 hk1]; rfl
+      · rw [hs3 hk1]; rfl
       · have : k = 0 := by omega
         subst this; rw [h4 rfl, hk0]; rfl
   rw [h5, loop_step_stall c start r h f (i + k) _ app1 hs, hr]; rfl
@@ -278,32 +284,20 @@ theorem loop_reps (c : Crit) (start : Nat) (r : Nat → Nat) (h : c.tablename = 
     have e2 : i + 1 + d + 1 = i + (d + 1) + 1 := by omega
     simp [e2]
 
-/-! ### the empty target name -/
-
-theorem boundary_empty (c : Crit) (start : Nat) (app : App) (last : Nat) (h : c.tablename = "") :
-    boundary c start app last =
-      some (⟨app.startingId, app.repCount + 1⟩, finishedRows start c.count last) := by
-  have hne : ¬ (COUNT_REPS = "") := by decide
-  simp [boundary, ensureProgress, checkIfFinished, stoppingTablename, truthy, h, hne]
-
 /-! ### the validation in `Interpreter.__init__` -/
 
 theorem rejects_of_contains (tables : List String) (c : Crit) (h : tables.contains c.tablename = true) :
     rejects tables c = false := by
   unfold rejects; rw [h]; simp
 
-theorem rejects_unknown (tables : List String) (c : Crit) (hc : RowsMode c)
+/-- any name other than the repetition marker — the empty name included — that no template creates -/
+theorem rejects_unknown (tables : List String) (c : Crit) (hT : c.tablename ≠ COUNT_REPS)
     (h : tables.contains c.tablename = false) : rejects tables c = true := by
-  unfold rejects; rw [h, truthy_rows c hc]; rfl
+  unfold rejects; rw [h]; simp [stoppingTablename, hT]
 
 theorem rejects_reps (tables : List String) (c : Crit) (h : c.tablename = COUNT_REPS) :
     rejects tables c = false := by
-  simp [rejects, stoppingTablename, truthy, h]
-
-theorem rejects_empty (tables : List String) (c : Crit) (h : c.tablename = "") :
-    rejects tables c = false := by
-  have hne : ¬ ("" = COUNT_REPS) := by decide
-  simp [rejects, stoppingTablename, truthy, h, hne]
+  simp [rejects, stoppingTablename, h]
 
 /-- the loop itself never produces `rejected` -/
 theorem loop_ne_rejected (c : Crit) (start : Nat) (r : Nat → Nat) :
